@@ -90,6 +90,7 @@ package ice
 //@   site call Since#1 assert deadline-measured-from-latest-entry: lastConnectionState != ConnectionStateChecking || lastCheckingEpoch != a.checkingEpoch ==> rearmed
 //@   site call updateConnectionState#1 assert initial-deadline-only-while-checking: a.connectionState == ConnectionStateChecking && arg1 == ConnectionStateFailed && checkingTimeout != 0
 //@   site call ContactCandidates#1 assert no-checks-while-failed: a.connectionState != ConnectionStateFailed
+//@   site call ContactCandidates#1 assert C03 C05 C04 the-tick-acts-through-the-selector-of-the-role-the-agent-has-when-it-runs: recv == a.selector
 //@   ensures failed-tick-is-silent: old(a.connectionState) == ConnectionStateFailed ==> unchangedExcept("E_ice.ConnectionState", "E_uint64")
 
 // Every caller of updateConnectionState and the state it asks for.
